@@ -111,7 +111,7 @@ def _corr_kernel(ctx):
     rng = ctx.rng
     gos = {n: GaussianOverlap(n) for n in range(0, 8)}
     reqs, impl, cls = [], [], []
-    reps = ctx.n(6, 60)
+    reps = ctx.n(12, 80)
     for n1 in range(8):
         for n2 in range(8):
             for _ in range(reps):
@@ -326,7 +326,7 @@ def _labels_ok(b):
 def _corr_overlap(ctx):
     rng = ctx.rng
     h2 = c10._tables()["horton2"]
-    n = ctx.n(60, 900)
+    n = ctx.n(240, 1500)
     reqs, impls, clss = [], [], []
     for i in range(n):
         big = i % 6 == 0
@@ -334,7 +334,7 @@ def _corr_overlap(ctx):
             b0, x0, b1, x1, cls = _gen_case(rng, h2, 260 if big else 120, 7 if big else 5)
             if not _labels_ok(b0) or (b1 is not None and not _labels_ok(b1)):
                 continue
-            if _borderline(b0, x0, b1 or b0, x1 if (b1 is not None and x1 is not None) else x0):
+            if not (b1 is not None and x1 is None) and _borderline(b0, x0, b1 or b0, x1 if b1 is not None else x0):
                 continue
             break
         reqs.append(f"ovl {_enc_basis(b0)} {_enc_xyz(x0)} {'@' if b1 is None else _enc_basis(b1)} {'@' if x1 is None else _enc_xyz(x1)}")
@@ -627,7 +627,7 @@ def _reject_checks(ctx, h2):
 def search(ctx):
     rng = ctx.rng
     h2 = c10._tables()["horton2"]
-    n = ctx.n(40, 500) * (3 if ctx.escalated else 1)
+    n = ctx.n(120, 800) * (3 if ctx.escalated else 1)
     for i in range(n):
         big = i % 5 == 0
         case = _search_case(rng, h2, 150 if big else 70, 7 if big else 4)
